@@ -8,9 +8,10 @@ import (
 
 func TestReplay(t *testing.T) {
 	verif.ReplayMain(map[string]func(){
-		"HarnessPingsDisabled":       HarnessPingsDisabled,
-		"HarnessPongsAfterReconnect": HarnessPongsAfterReconnect,
-		"HarnessRenewals":            HarnessRenewals,
-		"HarnessSilentPeer":          HarnessSilentPeer,
+		"HarnessNoRenewalWithoutActivity": HarnessNoRenewalWithoutActivity,
+		"HarnessPingsDisabled":            HarnessPingsDisabled,
+		"HarnessPongsAfterReconnect":      HarnessPongsAfterReconnect,
+		"HarnessRenewals":                 HarnessRenewals,
+		"HarnessSilentPeer":               HarnessSilentPeer,
 	})
 }
